@@ -48,6 +48,15 @@ pub struct DCfg {
     /// the only subscriber (a parked channeled one) is being unsubscribed while another thread registers
     /// a new subscriber; actions dispatched afterwards must reach the new one
     pub lone: bool,
+    /// (k, rounds): per round k short-lived subscribers are registered, then one that stays; the k are
+    /// unsubscribed by k threads released together (removal of different subscribers racing each other)
+    pub burst: Option<(usize, usize)>,
+    /// the stalled drop-policy subscriber stays parked until this long after stop() was invoked (ms; 0: the
+    /// gate opens before stop()): stop() has to wait for a subscriber that needs a while to drain
+    pub stall_through_stop_ms: u64,
+    /// Some(with_channeled): a subscriber's on_unsubscribe panics inside unsubscribe() (the caller catches
+    /// it), nothing is dispatched afterwards, then the store is stopped: everybody else is still released
+    pub poison: Option<bool>,
 }
 
 pub fn gen(rng: &mut Rng, tiny: bool, focus: &str) -> DCfg {
@@ -123,6 +132,12 @@ pub fn gen(rng: &mut Rng, tiny: bool, focus: &str) -> DCfg {
         long_stall_ms,
         no_sentinel: rng.chance(1, 3),
         lone: rng.chance(1, 12),
+        stall_through_stop_ms: match stall {
+            Some((_, p)) if p != POL_BLOCK && (cfg!(miri) || !tiny) && rng.chance(1, if cfg!(miri) { 2 } else { 12 }) => *rng.pick(&[700u64, 900, 1400]),
+            _ => 0,
+        },
+        poison: if rng.chance(1, 16) { Some(rng.chance(2, 3)) } else { None },
+        burst: if rng.chance(1, 10) { Some((rng.range(2, 4) as usize, if tiny { rng.range(1, 2) } else { rng.range(2, 12) } as usize)) } else { None },
     }
 }
 
@@ -152,15 +167,19 @@ pub fn describe(c: &DCfg) -> J {
         ),
         ("stalled_channeled", c.stall.map(|(cap, p)| J::s(format!("cap {} {} parked at a gate{}", cap, POL_NAMES[p as usize], if c.long_stall_ms > 0 { format!(", long stall {} ms", c.long_stall_ms) } else { String::new() }))).unwrap_or(J::Null)),
         ("slow_consumer_ms", J::U(c.slow_consumer_ms)),
+        ("stalled_subscriber_released_ms_after_stop_invoked", J::U(c.stall_through_stop_ms)),
         ("cross_unsubscribe", c.cross_unsub.map(|(cap, p, n)| J::s(format!("channeled X unsubscribes channeled Y (cap {} {}) from inside its {}-th on_notify", cap, POL_NAMES[p as usize], n))).unwrap_or(J::Null)),
         ("perturb", J::U(c.perturb as u64)),
         ("whole_run_sentinel", J::B(!c.no_sentinel)),
         ("lone_subscriber_handover", J::B(c.lone)),
+        ("on_unsubscribe_panics_inside_unsubscribe_then_stop", c.poison.map(|ch| J::s(if ch { "with a parked channeled subscriber holding a backlog" } else { "direct subscribers only" })).unwrap_or(J::Null)),
+        ("burst_unsubscribe", c.burst.map(|(k, r)| J::s(format!("{} rounds: {} short-lived subscribers + one that stays, the {} unsubscribed by {} threads released together", r, k, k, k))).unwrap_or(J::Null)),
     ])
 }
 
 const MARK_GIVEUP: u32 = 900;
 const MARK_STALL_DONE: u32 = 5;
+pub const MARK_PANICKED_SUB: u32 = 8;
 
 /// Deterministic hand-over: list = [X] (channeled, parked at a gate with a backlog); T2 unsubscribes X
 /// (blocks in the join while holding the list lock), T1 registers S2 meanwhile; gate opens; more actions.
@@ -195,9 +214,107 @@ fn execute_lone(c: &DCfg, seed: u64) -> W {
     w
 }
 
+/// Removal of different subscribers racing each other: the list is [head, .., s1..sk, tail_r]; k threads
+/// released together unsubscribe s1..sk; head and every tail stay to the end.
+fn execute_burst(c: &DCfg, seed: u64, k: usize, rounds: usize) -> W {
+    let ctx = Ctx::new(ScriptSrc::Table(vec![Script::plain()]), 3, seed, c.perturb, false);
+    let w = W::new(ctx, vec![StoreCfg { policy: POL_BLOCK, cap: 16, n_red: c.n_red, n_mw: 0, name: "rsvd".into(), ctor: 0 }]);
+    let mut keep = vec![w.add_direct(0, NOGATE, false, true, false)];
+    let mut seq = 0u32;
+    for _ in 0..rounds {
+        let shorts: Vec<_> = (0..k).map(|i| if i % 2 == 1 && c.n_red == 2 { w.add_channeled(0, 2, POL_BLOCK, NOGATE, false, false, false) } else { w.add_direct(0, NOGATE, false, false, false) }).collect();
+        keep.push(w.add_direct(0, NOGATE, false, false, false));
+        seq += 1;
+        w.dispatch(0, EP_INHERENT, Act { id: act_id(0, 1, seq), script: 0 });
+        let go = std::sync::atomic::AtomicUsize::new(0);
+        std::thread::scope(|sc| {
+            let hs: Vec<_> = shorts
+                .into_iter()
+                .enumerate()
+                .map(|(i, (id, sn))| {
+                    let (w, go) = (&w, &go);
+                    std::thread::Builder::new().name(format!("unsub{}", i)).spawn_scoped(sc, move || {
+                        go.fetch_add(1, std::sync::atomic::Ordering::AcqRel);
+                        while go.load(std::sync::atomic::Ordering::Acquire) < k {
+                            if cfg!(miri) {
+                                std::thread::yield_now();
+                            } else {
+                                std::hint::spin_loop();
+                            }
+                        }
+                        w.unsubscribe(0, id, sn.as_ref());
+                        (id, sn)
+                    }).unwrap()
+                })
+                .collect();
+            for h in hs {
+                keep.push(h.join().unwrap());
+            }
+        });
+        seq += 1;
+        w.dispatch(0, EP_INHERENT, Act { id: act_id(0, 1, seq), script: 0 });
+    }
+    w.stop(0, STOP_STOP);
+    w.read(0);
+    drop(keep);
+    w
+}
+
+/// A subscriber whose on_unsubscribe panics inside unsubscribe() (caught by the caller) and no action
+/// afterwards; then the store is stopped (`how`): every other subscriber is released exactly once and a
+/// parked channeled subscriber's backlog is delivered before the stop returns.
+pub fn execute_poison(seed: u64, how: u32, n_red: u32, perturb: u8, with_chan: bool) -> W {
+    let ctx = Ctx::new(ScriptSrc::Table(vec![Script::plain()]), 3, seed, perturb, false);
+    let w = W::new(ctx, vec![StoreCfg { policy: POL_BLOCK, cap: 16, n_red, n_mw: 0, name: "rsvp".into(), ctor: 0 }]);
+    let counter = Arc::new(Counter::new());
+    let s1 = w.add_direct_counted(0, true, counter.clone());
+    let x = if with_chan { Some(w.add_channeled(0, 4, POL_BLOCK, 1, true, true, false)) } else { None };
+    let p = w.add_direct_sub(0, true, |sub| sub.panic_on_unsub = std::sync::atomic::AtomicBool::new(true));
+    let s2 = w.add_direct(0, NOGATE, false, true, false);
+    let droppable = if how == STOP_DROP { Some(rs_store::DroppableStore::new(w.stores[0].clone())) } else { None };
+    let n = 1 + (seed % 3) as u32;
+    for k in 0..n {
+        w.dispatch(0, EP_INHERENT, Act { id: act_id(0, 1, k + 1), script: 0 });
+    }
+    if !counter.wait_at_least(n as u64, 20) || (with_chan && !w.ctx.gates[1].wait_parked(1)) {
+        w.mark(MARK_GIVEUP, 7);
+        w.ctx.gates[2].wait();
+    }
+    let r = std::panic::catch_unwind(std::panic::AssertUnwindSafe(|| w.unsubscribe(0, p.0, p.1.as_ref())));
+    // (the panicking subscriber itself is outside the properties: its callback did not return)
+    let _ = r;
+    w.mark(MARK_PANICKED_SUB, p.0 as u64);
+    std::thread::scope(|sc| {
+        let w = &w;
+        std::thread::Builder::new().name("opener".into()).spawn_scoped(sc, move || {
+            crate::fam_a::wait_until(|| crate::fam_a::count_kind(w, K::StopInv, how) >= 1);
+            w.ctx.perturb();
+            if !cfg!(miri) {
+                std::thread::sleep(std::time::Duration::from_millis(2));
+            }
+            w.ctx.gates[1].open();
+        }).unwrap();
+        match droppable {
+            Some(d) => w.drop_droppable(0, d),
+            None => w.stop(0, how),
+        };
+    });
+    w.dispatch(0, EP_INHERENT, Act { id: act_id(0, 41, 1), script: 0 });
+    w.read(0);
+    w.metrics(0);
+    drop((s1, x, p, s2));
+    w
+}
+
 pub fn execute(c: &DCfg, seed: u64) -> W {
+    if let Some(ch) = c.poison {
+        return execute_poison(seed, if seed % 4 == 0 { STOP_TRAIT } else { STOP_STOP }, c.n_red, c.perturb, ch);
+    }
     if c.lone {
         return execute_lone(c, seed);
+    }
+    if let Some((k, rounds)) = c.burst {
+        return execute_burst(c, seed, k, rounds);
     }
     let ctx = Ctx::new(ScriptSrc::Table(c.scripts.clone()), 3, seed, c.perturb, false);
     let w = W::new(ctx, vec![StoreCfg { policy: c.policy, cap: c.cap, n_red: c.n_red, n_mw: 0, name: "rsvd".into(), ctor: 0 }]);
@@ -425,7 +542,9 @@ pub fn execute(c: &DCfg, seed: u64) -> W {
                 give_up(1);
             }
             w.mark(MARK_STALL_DONE, notifying);
-            w.ctx.gates[1].open();
+            if c.stall_through_stop_ms == 0 {
+                w.ctx.gates[1].open();
+            }
         }
         let mut keep = Vec::new();
         for h in ahs {
@@ -438,6 +557,14 @@ pub fn execute(c: &DCfg, seed: u64) -> W {
         }
         // every iterator is created before stop() is invoked (C14 quantifies over those only)
         registered.wait_at_least(c.actors.len() as u64, 30);
+        if c.stall_through_stop_ms > 0 {
+            let w = &w;
+            std::thread::Builder::new().name("opener".into()).spawn_scoped(sc, move || {
+                crate::fam_a::wait_until(|| crate::fam_a::count_kind(w, K::StopInv, STOP_STOP) >= 1);
+                std::thread::sleep(std::time::Duration::from_millis(c.stall_through_stop_ms));
+                w.ctx.gates[1].open();
+            }).unwrap();
+        }
         w.stop(0, STOP_STOP);
         for h in consumers {
             keep.push(h.join().unwrap());
@@ -510,6 +637,9 @@ pub fn c09(h: &Hist, s: u8, v: &mut Verdicts) {
         let t = sub_times(h, si.id);
         if t.add_ret == 0 || t.add_ret > first_shutdown {
             continue; // only subscribers registered before shutdown was invoked are judged
+        }
+        if h.evs.iter().any(|e| e.k == K::Mark && e.idx == MARK_PANICKED_SUB && e.x == si.id as u64) {
+            continue; // its on_unsubscribe panicked inside unsubscribe(): not a callback "that returns"
         }
         let nots: Vec<&Ev> = h.evs.iter().filter(|e| e.k == K::SBeg && e.idx == si.id && e.store == s).collect();
         let got: HashSet<u32> = nots.iter().map(|e| e.a).collect();
